@@ -22,7 +22,8 @@ package proc
 //@ func (*listener).addConn
 //@   prop C09 C20
 //@   requires l != nil && l.cfg != nil && l.stats != nil && distinctstats(l.stats)
-//@   modifies mapof(l.conns), statval
+//@   modifies mapof(l.conns), statval, admitted
+//@   ghostdef forall x loc :: admitted[x] == ite(x == ifaceloc(conn) && l.conns != nil && !(l.cfg.ConnectionLimit != 0 && uint32(len(l.conns)) >= l.cfg.ConnectionLimit), true, old(admitted[x]))
 //@   ensures @admit-iff-registry-open-and-under-limit result == (old(l.conns) != nil && !(l.cfg.ConnectionLimit != 0 && uint32(old(len(l.conns))) >= l.cfg.ConnectionLimit))
 //@   ensures @admitted-is-registered result ==> has(l.conns, conn) && len(l.conns) <= old(len(l.conns)) + 1
 //@   ensures @admitted-is-counted result ==> statval[l.stats.CxTotal] == uint64(old(statval[l.stats.CxTotal]) + 1) && statval[l.stats.CxActive] == uint64(old(statval[l.stats.CxActive]) + 1) && statval[l.stats.CxDestroyTotal] == old(statval[l.stats.CxDestroyTotal])
@@ -31,6 +32,29 @@ package proc
 //@ func (*listener).removeConn
 //@   prop C09 C20
 //@   requires l != nil && l.stats != nil && distinctstats(l.stats) && (l.conns == nil || has(l.conns, conn))
-//@   modifies mapof(l.conns), statval
+//@   requires @only-an-admitted-connection-is-removed-and-only-once admitted[ifaceloc(conn)]
+//@   modifies mapof(l.conns), statval, admitted
+//@   ghostdef forall x loc :: admitted[x] == (old(admitted[x]) && x != ifaceloc(conn))
 //@   ensures @admitted-connection-is-destroyed-exactly-once statval[l.stats.CxDestroyTotal] == uint64(old(statval[l.stats.CxDestroyTotal]) + 1) && statval[l.stats.CxActive] == uint64(old(statval[l.stats.CxActive]) - 1) && statval[l.stats.CxTotal] == old(statval[l.stats.CxTotal])
 //@   ensures @unregistered l.conns == nil || !has(l.conns, conn)
+
+
+// ---- C20: the accept path counts a connection as destroyed only after having counted it as created ---
+
+//@ func (*listener).wrapRawConn
+//@   prop C20 C09
+//@   requires l != nil && l.stats != nil
+//@   modifies heap("Conn.Stats")
+//@   ensures @wrapped result != nil
+
+//@ func (*listener).handleRawConn
+//@   prop C20 C09
+//@   requires l != nil && l.cfg != nil && l.stats != nil && distinctstats(l.stats)
+//@   assume @before:handleRawConn$1 l.stats != nil && distinctstats(l.stats) && (l.conns == nil || has(l.conns, conn))
+//@   modifies all, admitted
+
+//@ func (*listener).handleRawConn$1
+//@   prop C20 C09
+//@   requires @listener-wired deref(l) != nil && deref(l).stats != nil && distinctstats(deref(l).stats) && (deref(l).conns == nil || has(deref(l).conns, deref(conn)))
+//@   requires @cleanup-runs-for-admitted-connections-only admitted[ifaceloc(deref(conn))]
+//@   modifies all, admitted
